@@ -140,7 +140,21 @@ def check_indented(m, r, fails):
                       "got": [c.get("raw") for c in codes]})
 
 
-SPAN = ["code", "a b", " x ", "  ", "a*b*", "<i>&amp;", "\\", "a\nb", " a", "a ", "`", "``", "é", "[x](y)", "&#35;", " `` ", "\\`"]
+SPAN = ["code", "a b", " x ", "  ", "a*b*", "<i>&amp;", "\\", "a\nb", " a", "a ", "`", "``", "é", "[x](y)", "&#35;", " `` ", "\\`",
+        "f(*args)", "a_b_c", "x**y", "__init__", "a*", "*b", "~~x~~", "[", "](u)", "<b>", "$x$", "|"]
+# what surrounds the span: plain text, emphasis and strong (also nested in each other), link text, other blocks
+SPAN_CTX = [("a ", " b"), ("a ", " b"), ("*e ", " f* g"), ("**s ", " t** u"), ("**see *the ", " call* here**"), ("*a **b ", " c** d*"), ("_a __b ", " c__ d_"),
+            ("__s _e ", " f_ t__"), ("[t ", " u](/x) v"), ("*e [t ", " u](/x) f*"), ("# h ", ""), ("- i ", ""), ("> q ", ""), ("***x ", " y***")]
+
+
+def _spans(toks):
+    out = []
+    for t in toks:
+        if t.get("type") == "codespan":
+            out.append(t)
+        if t.get("children"):
+            out += _spans(t["children"])
+    return out
 
 
 def spec_codespan(c):
@@ -160,13 +174,16 @@ def check_span(m, r, fails):
         n += 1
     pad = " " if (c.startswith("`") or c.endswith("`")) else ""
     inner = pad + c + pad
-    doc = "a " + "`" * n + inner + "`" * n + " b\n"
+    pre, post = r.choice(SPAN_CTX)
+    if "\n" in inner and pre[:1] in "#->":
+        pre, post = "a ", " b"       # (a span that holds a line ending cannot sit in a one-line block)
+    doc = pre + "`" * n + inner + "`" * n + post + "\n"
     expected = spec_codespan(inner)
     if not inner or inner.endswith("`") or inner.startswith("`"):
         return
     try:
         toks = m.create_markdown(renderer=None)(doc)
-        spans = [t for t in toks[0]["children"] if t["type"] == "codespan"]
+        spans = _spans(toks)
         out = m.create_markdown()(doc)
     except Exception as e:  # noqa
         fails.append({"input": doc, "kind": "exception", "got": "%s: %s" % (type(e).__name__, e)})
@@ -228,7 +245,7 @@ def oracle(ctx, extra):
             "rule": "50% fenced blocks: fence char ` or ~, length 3/4/6, info strings, bodies of 0-5 lines drawn from 31 hostile lines "
                     "(markdown-looking text, entities, backslashes, tabs, blank lines, shorter / other-character / suffixed / 4-space-"
                     "indented fence runs) in 6 containers (top level with 0-3 spaces of fence indentation, quote, bullet item, ordered "
-                    "item, quote in list, list in quote); 25% indented code (top, quote, list item after a paragraph); 25% code spans "
+                    "item, quote in list, list in quote); 25% indented code (top, quote, list item after a paragraph); 25% code spans (bodies with emphasis delimiters, brackets and plugin markers; inside plain text, emphasis and strong nested in each other, link text, headings, items, quotes) "
                     "(content with spaces, newlines, backticks, markup, entities); token raw and unescaped HTML compared with the body",
             "samples": [json.dumps(wrap(["```", "a", "```"], "quote-in-list"))]}
 
@@ -248,5 +265,5 @@ def replay(ctx, case):
             return {"got": [x.get("raw") for x in codes]}
         return None
     toks = m.create_markdown(renderer=None)(doc)
-    spans = [t for t in toks[0]["children"] if t["type"] == "codespan"]
+    spans = _spans(toks)
     return None if (len(spans) == 1 and spans[0]["raw"] == c["expected"]) else {"got": [s["raw"] for s in spans]}
